@@ -1269,13 +1269,19 @@ class FatDirectory(abc.MutableMapping):
             lfn = filename.encode(self._encoding, 'replace')
             def make_sfn(name, ext):
                 return (name + b'.' + ext) if ext else name
+            def lower(name):
+                # NOTE: must match the lower-casing _split_entries applies
+                # when decoding the case attributes (bytes.lower only
+                # handles ASCII)
+                return name.decode(self._encoding).lower().encode(
+                    self._encoding, 'replace')
             if lfn == make_sfn(sfn, ext):
                 attr = 0
-            elif lfn == make_sfn(sfn, ext.lower()):
+            elif lfn == make_sfn(sfn, lower(ext)):
                 attr = 0b10000
-            elif lfn == make_sfn(sfn.lower(), ext):
+            elif lfn == make_sfn(lower(sfn), ext):
                 attr = 0b01000
-            elif lfn == make_sfn(sfn.lower(), ext.lower()):
+            elif lfn == make_sfn(lower(sfn), lower(ext)):
                 attr = 0b11000
             else:
                 sfn_only = False
